@@ -77,6 +77,9 @@ func checkCase(c Case) (out evid.Outcome) {
 					for k, v := range ctx.Params() {
 						got[k] = v
 					}
+					// a handler may use its parameter map as scratch space; that
+					// must not leak into any later request
+					ctx.Params()["zz-scratch"] = fmt.Sprint(idx)
 					ctx.ResponseWriter().WriteHeader(200)
 				}
 				if strings.Contains(op.M, ",") {
@@ -84,14 +87,7 @@ func checkCase(c Case) (out evid.Outcome) {
 					rs.fr = f.Routes(op.R, op.M, hf)
 					return nil
 				}
-				rs.fr = f.Route(op.M, op.R, []flamego.Handler{func(ctx flamego.Context) {
-					ran = idx
-					got = map[string]string{}
-					for k, v := range ctx.Params() {
-						got[k] = v
-					}
-					ctx.ResponseWriter().WriteHeader(200)
-				}})
+				rs.fr = f.Route(op.M, op.R, []flamego.Handler{hf})
 				return nil
 			}()
 			if perr != nil {
@@ -168,6 +164,16 @@ func checkCase(c Case) (out evid.Outcome) {
 			if ran >= 0 {
 				if got["route"] != wantRoute {
 					return fail(out, "route-param", "step %d: %s %q: parameter route=%q, tree leaf route %q", step, op.M, op.P, got["route"], wantRoute)
+				}
+				// the whole parameter map must be what tree matching produced (plus
+				// the reserved route): nothing left over from earlier requests
+				for k, v := range got {
+					if k == "route" {
+						continue
+					}
+					if tv, ok := wantParams[k]; !ok || tv != v {
+						return fail(out, "params-extra", "step %d: %s %q: the handler saw %s=%q, tree matching gives %q (present=%v); all parameters seen: %s", step, op.M, op.P, k, v, tv, ok, rt.Show(got))
+					}
 				}
 				// the binds of the winning route must agree
 				d := rt.Deriv(regs[ran].r)
